@@ -148,6 +148,27 @@ def if_chain(node):
         return out
 
 
+def as_ladder(body):
+    """a statement list in which `if T: ...<terminates>` is followed by more statements, rewritten so that those statements are the else
+    branch (guard clauses and if/elif/else ladders become one shape); the input is not modified"""
+    body = list(body)
+    for i, st in enumerate(body):
+        if isinstance(st, ast.If) and i + 1 < len(body):
+            arms = if_chain(st)
+            if arms[-1][0] is not None and all(terminates(b) for _, b in arms):
+                rest = as_ladder(body[i + 1:])
+
+                def attach(node):
+                    c = copy.copy(node)
+                    if len(c.orelse) == 1 and isinstance(c.orelse[0], ast.If):
+                        c.orelse = [attach(c.orelse[0])]
+                    else:
+                        c.orelse = rest
+                    return c
+                return body[:i] + [attach(st)]
+    return body
+
+
 def strip_doc(body):
     if body and isinstance(body[0], ast.Expr) and isinstance(body[0].value, ast.Constant) and \
             isinstance(body[0].value.value, str):
